@@ -23,8 +23,9 @@
       ends with the same status, and — unless the chunk-overrun error was raised — has written the same output and consumed the same
       number of bytes; each run equals one call with the whole input and a larger allowance (`lzma2_sliced_eq_single_call`). The
       earlier, restricted forms (`lzma2_slicing_independent`, `lzma1_slicing_independent`: no window wrap, `FreeRoom`) are kept because
-      the link to the ONE-SHOT model of Model/Lzma2.lean (`lzma2_sliced_eq_oneshot`, `lzma1_sliced_eq_oneshot`, `oneshot_*`) is proved
-      under the no-wrap bound only (see `Lemmas/LzmaResumeOneShotW.lean` for the state of the general form).
+      they were the first stage; the link to the ONE-SHOT model of Model/Lzma2.lean is proved here under the no-wrap bound / `StuckAtWrap`
+      exception (`lzma2_sliced_eq_oneshot`, `lzma2_window_sliced_eq_oneshot(_ended)`) and WITHOUT any restriction in
+      Props/C06SliceCoder.lean (`oneshot_lzma2_all`, `lzma2_window_sliced_eq_oneshot_all`).
    5. the resume point inside a symbol: re-decoding = continuing the suspended continuation (`resume_is_continuation`).
    6. non-vacuity: a real LZMA2 stream whole / byte-at-a-time / one byte of room per call / ragged (`Lemmas/LzmaResumeExample.lean`),
       and the chunk-overrun counterexample (`Lemmas/LzmaResumeExample2.lean`: same status, different consumed/output).
@@ -32,8 +33,8 @@
   WHAT IS NOT COVERED: (d) that liblzma's saved
   `sequence` + locals (`symbol`, `offset`, `len`, `limit`, `probs`) denote the continuation of 5 — C-vs-C oracle only; (e) nothing on the slicing side: both protocols are covered —
   cumulative resources (`runSlicedR`) and exact per-call windows that may shrink (`runSlicedX`), and Props/C06SliceCoder.lean restates the
-  result for `Coder.runSliced (lzCoder kind)` in the generic framework of Model/Coder.lean; the one-shot link for LZMA2 has one open corner
-  (`StuckAtWrap`: input truncated exactly when the window is full), for LZMA1 none (`oneshot_lzma1_all`); (f) the non-last filters of a chain, the containers, the encoders.
+  result for `Coder.runSliced (lzCoder kind)` in the generic framework of Model/Coder.lean; and gives the link to the one-shot models without any
+  restriction (`oneshot_lzma1_all`, `oneshot_lzma2_all`, `lzma2_window_sliced_eq_oneshot_all`; the restricted links below are earlier stages); (f) the non-last filters of a chain, the containers, the encoders.
 -/
 import XzVerif.Lemmas.LzmaResumeIdle
 import XzVerif.Lemmas.LzmaResumeIdle1
